@@ -20,8 +20,11 @@ POOL = {}
 SHARED = {}      # tx name -> set of names it was explicitly aliased with
 
 
+ALIASED = set()  # transactions some of whose sub-objects were aliased on purpose (h_share / h_copy* of elements)
+
+
 def reset():
-    POOL.clear(); SHARED.clear()
+    POOL.clear(); SHARED.clear(); ALIASED.clear()
 
 
 def dump():
@@ -52,6 +55,22 @@ def dump():
     for p, o in paths: by.setdefault(id(o), []).append(p)
     classes = sorted('+'.join(sorted(v)) for v in by.values() if len(v) >= 2)
     return ' '.join(sers) + ' | ' + ','.join(classes)
+
+
+COMPONENTS = {}      # tx name -> component serialisations after the last operation (side channel for the spec closures)
+
+
+def components():
+    """per transaction: the serialisation of every input, output and witness stack separately"""
+    out = {}
+    for n, t in POOL.items():
+        comp = []
+        for grp, xs in (('in', t.inputs), ('out', t.outputs), ('wit', t.witnesses)):
+            for i, x in enumerate(xs):
+                try: comp.append((f'{grp}[{i}]', bytes(x.to_bytes())))
+                except Exception: comp.append((f'{grp}[{i}]', b'err'))
+        out[n] = comp
+    return out
 
 
 def sers_of(d):
@@ -178,7 +197,7 @@ def cases(ctx):
         yield reset_case
         ops = list(with_redigests(rng, history(ctx, rng, None)))
         has_copy = any(k in ('copy', 'copyelem') for _, k, _ in ops); has_mut = any(k == 'mut' for _, k, _ in ops)
-        prev = {'dump': None, 'ans': None}
+        prev = {'dump': None, 'ans': None, 'comp': None}
         for line, kind, target in ops:
             ctx.count('op-' + line.split(' ')[0])
             def spec(ans, kind=kind, target=target, prev=prev, line=line):
@@ -197,6 +216,13 @@ def cases(ctx):
                         allowed = {target} | SHARED.get(target, set())
                         bad = [n for n in so if n not in allowed and so[n] != sn.get(n)]
                         if bad: res = (f's:raw mutation-of-{target}-changed-{"-".join(bad)}', 'ok')
+                        # one in-place edit of one sub-object changes at most one component of the transaction it belongs to
+                        # (unless this history aliased sub-objects on purpose)
+                        oc, nc = (prev['comp'] or {}).get(target), COMPONENTS.get(target)
+                        if not bad and oc is not None and nc is not None and len(oc) == len(nc) and not SHARED.get(target) \
+                                and target not in ALIASED:
+                            ch = [a[0] for a, b in zip(oc, nc) if a != b]
+                            if len(ch) > 1: res = (f's:raw one-edit-of-{target}-changed-{"-and-".join(ch)}', 'ok')
                     elif kind in ('copy', 'new', 'copyelem'):
                         bad = [n for n in so if n != target and so[n] != sn.get(n)]
                         if bad: res = (f's:raw copy-changed-{"-".join(bad)}', 'ok')
@@ -205,7 +231,7 @@ def cases(ctx):
                             cross = [c for c in classes if c and any(p.split('.')[0] == target for p in c.split('+')) and
                                      any(p.split('.')[0] != target for p in c.split('+'))]
                             if cross: res = (f's:raw fresh-object-shares-state:{cross[0]}', 'ok')
-                prev['dump'] = new; prev['ans'] = ans
+                prev['dump'] = new; prev['ans'] = ans; prev['comp'] = dict(COMPONENTS)
                 return res
             yield Case(line, 'ms', nontrivial=has_copy and has_mut, tag='hist-' + kind, spec=spec)
     # (2) order independence
@@ -307,6 +333,7 @@ def impl(op, a, ctx):
         if (snap(args), list(amts), len(spks)) != before: out = 'digest-changed-its-argument'
     else:
         raise ValueError(op)
+    COMPONENTS.clear(); COMPONENTS.update(components())
     return f'ok {out} | ' + dump()
 
 
